@@ -11,16 +11,17 @@ Lemma Zfloor_val x n : IZR n <= x < IZR n + 1 -> Zfloor x = n.
 Proof. intros H. apply Zfloor_spec. exact H. Qed.
 
 (* one non-periodic variable, grid [0,8) of 8 bins, hillWidth 2, newHillFrequency = gridsUpdateFrequency = 2 *)
-Definition w_var : varR := mkVar KScalar false 1 1 1 false false false false.
-Definition w_cfg : cfgR := mkCfg [w_var] [mkBound 0 8 8%Z] 1 2 2%Z 2%Z true false false 1 1 false false 0%Z (fun _ => 1).
+Definition w_var : varR := mkVar KScalar false 1 1 false false false false.
+Definition w_cfg : cfgR := mkCfg [w_var] [mkBound 0 8 8%Z] [1] 1 2 2%Z 2%Z true false false 1 1 false false 0%Z (fun _ => 1).
 Definition w_i1 : inR := mkIn 2%Z 2%Z false [[3/2]].
 Definition w_i2 : inR := mkIn 3%Z 3%Z false [[-(1/4)]].
 
 Lemma w_cfg_ok : cfg_ok w_cfg.
 Proof.
-  unfold cfg_ok. split; [|split].
-  - apply Forall_cons; [|apply Forall_nil]. unfold var_ok, w_var; cbn [v_sigma v_width]. lra.
-  - intros _. apply Forall_cons; [|apply Forall_nil]. unfold w_var; cbn [v_sigma v_width c_hill_width w_cfg]. lra.
+  unfold cfg_ok. split; [|split; [|split]].
+  - apply Forall_cons; [|apply Forall_nil]; unfold var_ok, w_var; cbn [v_width]; lra.
+  - split; [reflexivity|]. cbn [c_sigmas]. repeat (apply Forall_cons; [lra|]). apply Forall_nil.
+  - intros _. cbn [All2 w_cfg c_vars c_sigmas c_hill_width]. split; [|exact I]. unfold w_var; cbn [v_width]. lra.
   - intros _. split.
     + cbn [All2 w_cfg c_vars c_geom0]. split; [|exact I]. unfold bound_ok, w_var.
       cbn [b_upper b_lower b_nx v_width]. split; [simpl; lra|lia].
@@ -39,7 +40,7 @@ Lemma w_example :
   cfg_ok w_cfg /\ history_ok w_cfg ([EStep w_i1] ++ [EStep w_i2]) /\
   in_grid w_cfg (c_geom0 w_cfg) (i_x w_i1) = true /\ in_grid w_cfg (c_geom0 w_cfg) (i_x w_i2) = false /\
   eligible w_cfg w_i1 = true /\
-  spec_run w_cfg ([EStep w_i1] ++ [EStep w_i2]) = mkS [mkHill 2%Z (1 * (1 * 1)) [[3/2]]] [] (c_geom0 w_cfg).
+  spec_run w_cfg ([EStep w_i1] ++ [EStep w_i2]) = mkS [mkHill 2%Z (1 * (1 * 1)) [[3/2]] [1]] [] (c_geom0 w_cfg).
 Proof.
   split; [exact w_cfg_ok|]. split.
   { apply plain_history_ok. cbn [app]. apply Forall_cons; [exact (w_adm _)|apply Forall_cons; [exact (w_adm _)|apply Forall_nil]]. }
@@ -55,18 +56,18 @@ Proof.
 Qed.
 
 (* two variables: one with expandBoundaries, one periodic with a periodic grid; well-tempered, gaussianSigmas *)
-Definition x_varA : varR := mkVar KScalar false 1 1 1 false true false false.
-Definition x_varB : varR := mkVar KScalar true 8 1 1 true false false false.
+Definition x_varA : varR := mkVar KScalar false 1 1 false true false false.
+Definition x_varB : varR := mkVar KScalar true 8 1 true false false false.
 Definition x_cfg : cfgR :=
-  mkCfg [x_varA; x_varB] [mkBound 0 8 8%Z; mkBound 0 8 8%Z] 1 0 1%Z 2%Z true true true 300 1 false false 0%Z (fun _ => 1).
+  mkCfg [x_varA; x_varB] [mkBound 0 8 8%Z; mkBound 0 8 8%Z] [1; 1] 1 0 1%Z 2%Z true true true 300 1 false false 0%Z (fun _ => 1).
 Definition x_i1 : inR := mkIn 1%Z 1%Z false [[3/2]; [-(3/2)]].
 Definition x_i2 : inR := mkIn 2%Z 2%Z false [[-1]; [5]].
 
 Lemma x_cfg_ok : cfg_ok x_cfg.
 Proof.
-  unfold cfg_ok. split; [|split].
-  - apply Forall_cons; [|apply Forall_cons; [|apply Forall_nil]];
-      unfold var_ok, x_varA, x_varB; cbn [v_sigma v_width]; lra.
+  unfold cfg_ok. split; [|split; [|split]].
+  - apply Forall_cons; [|apply Forall_cons; [|apply Forall_nil]]; unfold var_ok, x_varA, x_varB; cbn [v_width]; lra.
+  - split; [reflexivity|]. cbn [c_sigmas]. repeat (apply Forall_cons; [lra|]). apply Forall_nil.
   - intros H. cbn [x_cfg c_hill_width] in H. lra.
   - intros _. split.
     + cbn [All2 x_cfg c_vars c_geom0]. unfold bound_ok, x_varA, x_varB. cbn [b_upper b_lower b_nx v_width].
@@ -97,20 +98,19 @@ Proof.
 Qed.
 
 (* without grids: a 3-vector and a unit-vector variable *)
-Definition v_var1 : varR := mkVar KVec3 false 1 1 1 false false false false.
-Definition v_var2 : varR := mkVar KUnit3 false 1 1 1 false false false false.
-Definition v_var3 : varR := mkVar KQuat false 1 1 1 false false false false.
-Definition v_cfg : cfgR := mkCfg [v_var1; v_var2; v_var3] [] 1 2 1%Z 1%Z false false true 300 1 false false 0%Z (fun _ => 1).
+Definition v_var1 : varR := mkVar KVec3 false 1 1 false false false false.
+Definition v_var2 : varR := mkVar KUnit3 false 1 1 false false false false.
+Definition v_var3 : varR := mkVar KQuat false 1 1 false false false false.
+Definition v_cfg : cfgR := mkCfg [v_var1; v_var2; v_var3] [] [1; 1; 1] 1 2 1%Z 1%Z false false true 300 1 false false 0%Z (fun _ => 1).
 Definition v_i1 : inR := mkIn 1%Z 1%Z false [[1; 0; 1/2]; [1; 0; 0]; [1; 0; 0; 0]].
 Definition v_i2 : inR := mkIn 2%Z 2%Z false [[1; 1/4; 1/2]; [0; 1; 0]; [0; 1; 0; 0]].
 
 Lemma v_cfg_ok : cfg_ok v_cfg.
 Proof.
-  unfold cfg_ok. split; [|split].
-  - apply Forall_cons; [|apply Forall_cons; [|apply Forall_cons; [|apply Forall_nil]]];
-      unfold var_ok, v_var1, v_var2, v_var3; cbn [v_sigma v_width]; lra.
-  - intros _. apply Forall_cons; [|apply Forall_cons; [|apply Forall_cons; [|apply Forall_nil]]];
-      unfold v_var1, v_var2, v_var3; cbn [v_sigma v_width c_hill_width v_cfg]; lra.
+  unfold cfg_ok. split; [|split; [|split]].
+  - apply Forall_cons; [|apply Forall_cons; [|apply Forall_cons; [|apply Forall_nil]]]; unfold var_ok, v_var1, v_var2, v_var3; cbn [v_width]; lra.
+  - split; [reflexivity|]. cbn [c_sigmas]. repeat (apply Forall_cons; [lra|]). apply Forall_nil.
+  - intros _. cbn [All2 v_cfg c_vars c_sigmas c_hill_width]. unfold v_var1, v_var2, v_var3; cbn [v_width]. repeat split; lra.
   - intros H. discriminate H.
 Qed.
 
@@ -125,7 +125,7 @@ Proof.
 Qed.
 
 (* keepHills and a restart with rebinGrids onto the larger grid [-2,10) *)
-Definition r_cfg : cfgR := mkCfg [w_var] [mkBound 0 8 8%Z] 1 2 2%Z 2%Z true true false 1 1 false false 0%Z (fun _ => 1).
+Definition r_cfg : cfgR := mkCfg [w_var] [mkBound 0 8 8%Z] [1] 1 2 2%Z 2%Z true true false 1 1 false false 0%Z (fun _ => 1).
 Definition r_g : list boundR := [mkBound (-2) 10 12%Z].
 
 Lemma r_cfg_ok : cfg_ok r_cfg.
@@ -133,7 +133,7 @@ Proof. exact w_cfg_ok. Qed.
 
 Lemma r_example :
   cfg_ok r_cfg /\ history_ok r_cfg [EStep w_i1; ERestart (Some r_g); EStep w_i2] /\
-  spec_run r_cfg [EStep w_i1; ERestart (Some r_g); EStep w_i2] = mkS [mkHill 2%Z (1 * (1 * 1)) [[3/2]]] [] r_g /\
+  spec_run r_cfg [EStep w_i1; ERestart (Some r_g); EStep w_i2] = mkS [mkHill 2%Z (1 * (1 * 1)) [[3/2]] [1]] [] r_g /\
   in_grid r_cfg r_g (i_x w_i2) = true.
 Proof.
   split; [exact r_cfg_ok|]. split; [|split; [reflexivity|]].
@@ -141,7 +141,7 @@ Proof.
     + intros _. split.
       * cbn [All2 r_cfg r_g c_vars]. split; [|exact I]. unfold bound_ok, w_var.
         cbn [b_upper b_lower b_nx v_width]. split; [simpl; lra|lia].
-      * left. split; [reflexivity|]. assert (Hs : s_all (spec_event r_cfg (mkS [] [] (c_geom0 r_cfg)) (EStep w_i1)) = [mkHill 2%Z (1 * (1 * 1)) [[3/2]]])
+      * left. split; [reflexivity|]. assert (Hs : s_all (spec_event r_cfg (mkS [] [] (c_geom0 r_cfg)) (EStep w_i1)) = [mkHill 2%Z (1 * (1 * 1)) [[3/2]] [1]])
           by reflexivity.
         rewrite Hs. intros h [<-|[]]. cbn [All3 r_cfg r_g c_vars h_c]. split; [|exact I].
         unfold clear_var, w_var. cbn [v_expand]. intros H. discriminate H.
@@ -155,7 +155,7 @@ Proof.
 Qed.
 
 (* ebMeta (uniform target density 2 on the grid, ramped in during 4 steps) together with well-tempered *)
-Definition e_cfg : cfgR := mkCfg [w_var] [mkBound 0 8 8%Z] 1 2 2%Z 2%Z true false true 300 1 false true 4%Z (fun _ => 2).
+Definition e_cfg : cfgR := mkCfg [w_var] [mkBound 0 8 8%Z] [1] 1 2 2%Z 2%Z true false true 300 1 false true 4%Z (fun _ => 2).
 
 Lemma e_example :
   cfg_ok e_cfg /\ history_ok e_cfg [EStep w_i1; EStep w_i2] /\ c_eb e_cfg = true /\ c_wt e_cfg = true /\
@@ -168,15 +168,16 @@ Qed.
 
 (* expandBoundaries without keepHills, a reload, and a rebinning restart from the grids of the state onto the
    boundaries the grids have reached *)
-Definition n_var : varR := mkVar KScalar false 1 1 1 false true false false.
-Definition n_cfg : cfgR := mkCfg [n_var] [mkBound 0 8 8%Z] 1 2 1%Z 1%Z true false false 1 1 false false 0%Z (fun _ => 1).
+Definition n_var : varR := mkVar KScalar false 1 1 false true false false.
+Definition n_cfg : cfgR := mkCfg [n_var] [mkBound 0 8 8%Z] [1] 1 2 1%Z 1%Z true false false 1 1 false false 0%Z (fun _ => 1).
 Definition n_g : list boundR := s_geom (spec_run n_cfg [EStep w_i1; EReload]).
 
 Lemma n_cfg_ok : cfg_ok n_cfg.
 Proof.
-  unfold cfg_ok. split; [|split].
-  - apply Forall_cons; [|apply Forall_nil]. unfold var_ok, n_var; cbn [v_sigma v_width]. lra.
-  - intros _. apply Forall_cons; [|apply Forall_nil]. unfold n_var; cbn [v_sigma v_width c_hill_width n_cfg]. lra.
+  unfold cfg_ok. split; [|split; [|split]].
+  - apply Forall_cons; [|apply Forall_nil]; unfold var_ok, n_var; cbn [v_width]; lra.
+  - split; [reflexivity|]. cbn [c_sigmas]. repeat (apply Forall_cons; [lra|]). apply Forall_nil.
+  - intros _. cbn [All2 n_cfg c_vars c_sigmas c_hill_width]. split; [|exact I]. unfold n_var; cbn [v_width]. lra.
   - intros _. split.
     + cbn [All2 n_cfg c_vars c_geom0]. split; [|exact I]. unfold bound_ok, n_var.
       cbn [b_upper b_lower b_nx v_width]. split; [simpl; lra|lia].
@@ -198,17 +199,47 @@ Proof.
   split; [exact n_cfg_ok|]. split; [|split; reflexivity].
   assert (H0 : history_ok n_cfg [EStep w_i1; EReload]).
   { apply plain_history_ok. apply Forall_cons; [exact (n_adm _ _)|apply Forall_cons; [exact I|apply Forall_nil]]. }
-  destruct (run_inv n_cfg _ n_cfg_ok H0) as [HI Hb].
+  destruct (run_inv n_cfg _ n_cfg_ok H0) as (HI & Hb & _).
   pose proof (geometry_grows n_cfg _ n_cfg_ok H0 eq_refl) as Hgr. fold n_g in Hgr.
   assert (Hlen : length n_g = 1%nat).
   { destruct (All3_length _ _ _ _ Hgr) as [_ Hl]. symmetry. exact Hl. }
   destruct n_g as [|b [|b' r]] eqn:En; try discriminate Hlen.
   change (history_ok n_cfg ([EStep w_i1; EReload] ++ [ERestart (Some [b]); EStep w_i1])).
   unfold history_ok. apply hist_ok_app. split; [exact H0|].
-  change (fold_left (spec_event n_cfg) [EStep w_i1; EReload] (mkS [] [] (c_geom0 n_cfg))) with (spec_run n_cfg [EStep w_i1; EReload]).
+  change (frun spec_event n_cfg [EStep w_i1; EReload] (mkS [] [] (c_geom0 n_cfg))) with (spec_run n_cfg [EStep w_i1; EReload]).
+  change (final_cfg n_cfg [EStep w_i1; EReload]) with n_cfg in *.
   cbn [hist_ok]. split; [|split; [|exact I]].
   - intros _. split.
     + apply (All2_bound_gstep (c_vars n_cfg) _ _ (Hb eq_refl)). exact Hgr.
     + right. split; [reflexivity|]. fold n_g. rewrite En. apply All3_refl_gstep. reflexivity.
   - apply n_adm.
+Qed.
+
+(* a job continued with narrower hills, another weight and frequency: with grids (w_cfg) and without (v_cfg) *)
+Definition p_w : @params R := mkPar [1/2] 1 3 1%Z.
+Definition p_v : @params R := mkPar [1/2; 1/2; 1/2] 1 2 2%Z.
+
+Lemma reconf_example :
+  cfg_ok w_cfg /\ history_ok w_cfg [EStep w_i1; EReconf p_w; EStep w_i2] /\
+  cfg_ok v_cfg /\ history_ok v_cfg [EStep v_i1; EReconf p_v; EStep v_i2] /\
+  c_sigmas (final_cfg w_cfg [EStep w_i1; EReconf p_w]) = [1/2] /\
+  s_all (spec_run w_cfg [EStep w_i1; EReconf p_w]) = [mkHill 2%Z (1 * (1 * 1)) [[3/2]] [1]].
+Proof.
+  split; [exact w_cfg_ok|]. split; [|split; [exact v_cfg_ok|split; [|split; reflexivity]]].
+  - unfold history_ok. cbn [hist_ok]. split; [exact (w_adm _)|]. split; [|split; [exact (w_adm _)|exact I]].
+    unfold cfg_ok. cbn [with_par p_w c_vars c_sigmas c_hill_width c_use_grids c_geom0 w_cfg p_sigmas p_hill_width].
+    split; [|split; [|split]].
+    + apply Forall_cons; [|apply Forall_nil]. unfold var_ok, w_var; cbn [v_width]; lra.
+    + split; [reflexivity|]. apply Forall_cons; [lra|apply Forall_nil].
+    + unfold sigmas_ok. cbn [with_par c_vars c_sigmas c_hill_width p_sigmas p_hill_width p_w w_cfg All2].
+      intros _. split; [|exact I]. unfold w_var; cbn [v_width]. lra.
+    + intros _. destruct w_cfg_ok as (_ & _ & _ & H). exact (H eq_refl).
+  - unfold history_ok. cbn [hist_ok]. split; [intros H; discriminate H|]. split; [|split; [intros H; discriminate H|exact I]].
+    unfold cfg_ok. cbn [with_par p_v c_vars c_sigmas c_hill_width c_use_grids c_geom0 v_cfg p_sigmas p_hill_width].
+    split; [|split; [|split]].
+    + destruct v_cfg_ok as (H & _). exact H.
+    + split; [reflexivity|]. repeat (apply Forall_cons; [lra|]). apply Forall_nil.
+    + unfold sigmas_ok. cbn [with_par c_vars c_sigmas c_hill_width p_sigmas p_hill_width p_v v_cfg All2].
+      intros _. repeat split; unfold v_var1, v_var2, v_var3; cbn [v_width]; lra.
+    + intros H. discriminate H.
 Qed.
